@@ -4,6 +4,7 @@ import (
 	"errors"
 	"fmt"
 	"io"
+	"strings"
 	"unicode/utf8"
 
 	"verif/spaces"
@@ -26,6 +27,7 @@ type scriptedReader struct {
 	in        []byte
 	pos       int
 	freeCuts  bool  // partitions are scope-bounded (all explored) instead of deviation-bounded
+	menu      []int // if set, read sizes come from this menu (menu[0] = as much as fits) instead of 1..remaining
 	failed    error // latched injected failure
 	eofSent   bool
 	empties   int // consecutive empty reads so far
@@ -94,9 +96,15 @@ func (r *scriptedReader) Read(p []byte) (int, error) {
 	}
 	// How many bytes: choice 0 = everything that is left.
 	var k int
-	if r.freeCuts {
+	switch {
+	case r.menu != nil:
+		k = r.menu[x.Choose(len(r.menu))]
+		if k <= 0 || k > rem {
+			k = rem
+		}
+	case r.freeCuts:
 		k = rem - x.ChooseFree(rem)
-	} else {
+	default:
 		k = rem - x.Choose(rem)
 	}
 	copy(p, r.in[r.pos:r.pos+k])
@@ -187,6 +195,11 @@ func init() {
 				in := x.Tokens(spaces.L, 3)
 				c08Driver(x, in, false)
 			})
+			big := c08BigDocs()
+			c.Explore("big-docs", fmt.Sprintf("%d generated documents of %d and %d bytes (beyond one and two read chunks of the parser, hundreds of root blocks held until the end); read sizes from the menu {all that fits, 1, 7, 1000, 4096, 8191} with at most %d departures from the first", len(big), len(big[0]), len(big[1]), lb), lb, 0, func(x *X) {
+				in := []byte(big[x.ChooseFree(len(big))])
+				c08DriverWith(x, in, false, []int{0, 1, 7, 1000, 4096, 8191})
+			})
 			docs := c08Docs()
 			c.Explore("docs", fmt.Sprintf("%d fixed multi-block documents, schedules with at most %d departures", len(docs), lb), lb, 0, func(x *X) {
 				in := []byte(docs[x.ChooseFree(len(docs))])
@@ -194,6 +207,31 @@ func init() {
 			})
 		},
 	})
+}
+
+// c08BigDocs: documents larger than the parser's read chunk (8 KiB) and than
+// twice that, with many root blocks that the caller holds until the end.
+func c08BigDocs() []string {
+	var docs []string
+	for _, n := range []int{260, 1000} {
+		var sb strings.Builder
+		for i := 0; i < n; i++ {
+			switch i % 5 {
+			case 0:
+				fmt.Fprintf(&sb, "[ref%d]: /url/%d \"title %d\"\n\n", i, i, i)
+			case 1:
+				fmt.Fprintf(&sb, "Paragraph *number* %d with [ref%d] and `code`\r\nsecond line\r\n\r\n", i, i-1)
+			case 2:
+				fmt.Fprintf(&sb, "- item %d\n- item\x00 two\n\n", i)
+			case 3:
+				fmt.Fprintf(&sb, "```go\nblock %d\n```\n\n", i)
+			default:
+				fmt.Fprintf(&sb, "> quote %d\n> é more\r\r", i)
+			}
+		}
+		docs = append(docs, sb.String())
+	}
+	return docs
 }
 
 func c08Docs() []string {
@@ -206,8 +244,10 @@ func c08Docs() []string {
 	}
 }
 
-func c08Driver(x *X, in []byte, freeCuts bool) {
-	r := &scriptedReader{x: x, in: in, freeCuts: freeCuts}
+func c08Driver(x *X, in []byte, freeCuts bool) { c08DriverWith(x, in, freeCuts, nil) }
+
+func c08DriverWith(x *X, in []byte, freeCuts bool, menu []int) {
+	r := &scriptedReader{x: x, in: in, freeCuts: freeCuts, menu: menu}
 	p := cm.NewBlockParser(r)
 	var blocks []*cm.RootBlock
 	refs := make(cm.ReferenceMap)
